@@ -257,7 +257,7 @@ CLAIMED["C05"] = dict(
          "symbolically) - exploration, no theorem. Structural clause: expec(no shift) - expec(shift) = <d>_gs^(n) sum_I X_I Y_I for "
          "diagonal blocks and 0 for coupling blocks, accepted by checkEquiv for all Hamiltonians, operator matrices and amplitude "
          "vectors; default operator string per variant.",
-    note=TB + "No Lean spec of the ISR (see C03). Mixed left/right variants are not covered. Trusted: harness/isr_oracle.py, harness/detspace.py, the statement of the normalisation. mp partitioning; orders as enumerated.")
+    note=TB + "No Lean spec of the ISR (see C03). Mixed left/right variants (Properties(l_isr, r_isr) of different ADC variants on one ground state) are covered by two clauses decided by the proved checker: a number-conserving operator has no matrix element between intermediate states of different particle number, and transition moments requested for the left / right ISR equal those of the single-variant object (which the main clause ties to explicit intermediate states). Trusted: harness/isr_oracle.py, harness/detspace.py, the statement of the normalisation. mp partitioning; orders as enumerated.")
 
 PENDING = {
 }
